@@ -171,20 +171,19 @@ macro_rules | `(tactic| inva_step $hi $h $f $c $t) => `(tactic|
    all_goals (simp at $h:ident; try subst $h:ident)
    all_goals inva_close $hi $c $t))
 
-theorem invA_clear {c : Cfg} {s s' : State} {t : Nat} (hi : InvA c s) (h : stepClear c s t = some s') : InvA c s' := by
+theorem invA_clear {c : Cfg} {s s' : State} {t : Nat} (hi : InvA c s) (h : stepClear s t = some s') : InvA c s' := by
   unfold stepClear at h
   split at h
   · rename_i hpc
     simp at h; subst h
     have ht : t < c.nThreads := tlt hi (by simp_all)
     obtain ⟨h1, h2, h3, h4, h5⟩ := hi
-    refine ⟨?_, h2, by simp, ?_, ?_⟩
+    refine ⟨?_, h2, by simp, ?_, h5⟩
     · intro u hu; simp only []; rw [upd_other _ _ _ _ (by omega)]; exact h1 u hu
-    · simp only [pendingAdj, residentCost]
+    · simp only [pendingAdj, residentCost] at *
       have z : sumF s.dom (fun _ => costAt (none : Option Entry)) = 0 := sumF_zero (by intros; rfl)
       rw [pend_upd _ _ _ _ ht, hpc, z]
-      simp
-    · intro hh; simp at hh; exact hh.2
+      simp; omega
   · simp at h
 
 theorem invA_ttlMap {c : Cfg} {s s' : State} {t : Nat} {sent : Bool} (hi : InvA c s)
